@@ -223,11 +223,12 @@ type PtrSpec struct {
 
 // PtrOps: accessors of a pointer field, reduced to comparable values.
 type PtrOps struct {
-	Set     func(capnp.Struct) (string, error) // stores something, returns its description
-	Get     func(capnp.Struct) (string, error) // description of what is stored
-	Has     func(capnp.Struct) bool
-	Default string // description the getter must give on a null pointer ("" = none checked)
+	Set        func(capnp.Struct) (string, error) // stores something, returns its description
+	Get        func(capnp.Struct) (string, error) // description of what is stored
+	Has        func(capnp.Struct) bool
+	Default    string // description the getter must give on a null pointer ("" = none checked)
 	HasDefault bool
+	NullStore  bool // Set stores a null value: the slot ends up null, everything else is as for any store
 }
 
 func CheckPtr(t *testing.T, s PtrSpec, ops PtrOps, which func(capnp.Struct) int) {
@@ -272,7 +273,11 @@ func CheckPtr(t *testing.T, s PtrSpec, ops PtrOps, which func(capnp.Struct) int)
 			}
 		}
 		Checks++
-		if !st.HasPtr(uint16(s.Index)) {
+		if ops.NullStore {
+			if st.HasPtr(uint16(s.Index)) {
+				Fail(t, "null-store-left-pointer", "%s: after storing a null value pointer slot %d is not null", s.Name, s.Index)
+			}
+		} else if !st.HasPtr(uint16(s.Index)) {
 			Fail(t, "setter-wrong-slot", "%s: after the setter pointer slot %d is still null", s.Name, s.Index)
 		}
 		ptrsNull(t, st, s.Layout, s.Index, "the setter")
